@@ -89,6 +89,27 @@ DEMO[C18d]="F:late_success_demo_test.go=pkg/suggestion/v1beta1/goptuna|./pkg/sug
 DEMO[C19d]="F:c19d_demo_test.go=cmd/db-manager/v1beta1,c19d_demo_backends_test.go=cmd/db-manager/v1beta1|./cmd/db-manager/v1beta1/|-run TestC19dDemo"
 DEMO[C20d]="F:c20d_demo_test.go=pkg/ui/v1beta1|./pkg/ui/v1beta1/|-run TestC20dDemo"
 
+DEMO[C01e]="F:c01e_demo_test.go=pkg/controller.v1beta1/suggestion/suggestionclient,c01e_e2e_demo_test.go=pkg/controller.v1beta1/suggestion/suggestionclient|./pkg/controller.v1beta1/suggestion/suggestionclient/|-run TestC01e"
+DEMO[C02e]="F:seed_c02e_demo_test.go=pkg/controller.v1beta1/experiment/manifest|./pkg/controller.v1beta1/experiment/manifest/|-run TestSeedC02e"
+DEMO[C03e]="F:restart_twice_demo_test.go=pkg/apis/controller/experiments/v1beta1,e2e/restart_twice_reconcile_test.go=pkg/controller.v1beta1/experiment/restartdemo|./pkg/apis/controller/experiments/v1beta1/ ./pkg/controller.v1beta1/experiment/restartdemo/|"
+DEMO[C04e]="F:wedge_demo_test.go=pkg/controller.v1beta1/experiment/wedgedemo|./pkg/controller.v1beta1/experiment/wedgedemo/|"
+DEMO[C05e]="F:status_util_c05e_demo_test.go=pkg/controller.v1beta1/experiment/util|./pkg/controller.v1beta1/experiment/util/|-run TestC05e"
+DEMO[C06e]="F:c06e_e2e_test.go=pkg/controller.v1beta1/trial/c06edemo,c06e_managerclient_test.go=pkg/controller.v1beta1/trial/managerclient|./pkg/controller.v1beta1/trial/c06edemo/ ./pkg/controller.v1beta1/trial/managerclient/|-run TestC06eObjectiveQueryFault"
+DEMO[C07e]="F:c07e_demo_test.go=pkg/controller.v1beta1/trial/c07edemo|./pkg/controller.v1beta1/trial/c07edemo/|"
+DEMO[C08e]="F:c08e_demo_test.go=pkg/controller.v1beta1/suggestion/suggestionclient|./pkg/controller.v1beta1/suggestion/suggestionclient/|-run TestC08eStoredAssignmentsAreNotRewritten"
+DEMO[C09e]="F:c09e_demo_test.go=pkg/controller.v1beta1/suggestion/suggestionclient|./pkg/controller.v1beta1/suggestion/suggestionclient/|-run TestC09eSameNameOtherNamespace"
+DEMO[C10e]="F:c10e_demo_test.go=pkg/controller.v1beta1/suggestion/suggestionclient|./pkg/controller.v1beta1/suggestion/suggestionclient/|-run TestC10e"
+DEMO[C11e]="F:managerclient_fault_demo_test.go=pkg/controller.v1beta1/trial/managerclient|./pkg/controller.v1beta1/trial/managerclient/|-run TestGetTrialObservationLogCompleteOrError"
+DEMO[C12e]="F:owner_chain_demo_test.go=pkg/webhook/v1beta1/pod|./pkg/webhook/v1beta1/pod/|-run TestDemoOwnerChain"
+DEMO[C13e]="F:seed_c13e_demo_test.go=pkg/metricscollector/v1beta1/file-metricscollector|./pkg/metricscollector/v1beta1/file-metricscollector/|-run TestSeedC13eSeveralFilters"
+DEMO[C14e]="F:c14e_admission_soundness_test.go=pkg/webhook/v1beta1/experiment/validator|./pkg/webhook/v1beta1/experiment/validator/|-run TestC14eAdmittedNasExperimentInstantiates"
+DEMO[C15e]="F:validator_c15e_demo_test.go=pkg/webhook/v1beta1/experiment/validator|./pkg/webhook/v1beta1/experiment/validator/|-run TestC15e"
+DEMO[C16e]="F:c16e_restartable_demo_test.go=pkg/controller.v1beta1/experiment/util,c16edemo/c16e_scenario_test.go=pkg/controller.v1beta1/experiment/c16edemo|./pkg/controller.v1beta1/experiment/util/ ./pkg/controller.v1beta1/experiment/c16edemo/|-run TestC16e"
+DEMO[C17e]="F:c17e_demo_test.go=pkg/controller.v1beta1/suggestion/composer/c17edemo|./pkg/controller.v1beta1/suggestion/composer/c17edemo/|"
+DEMO[C18e]="F:seed_c18e_demo_test.go=pkg/suggestion/v1beta1/goptuna|./pkg/suggestion/v1beta1/goptuna/|-run TestSeedC18e"
+DEMO[C19e]="F:zero_time_demo_test.go=pkg/db/v1beta1/mysql|./pkg/db/v1beta1/mysql/|-run TestDemoZeroTimeEntriesAreStored"
+DEMO[C20e]="F:authzn_sequence_test.go=pkg/ui/v1beta1|./pkg/ui/v1beta1/|-run TestC20e"
+
 suite() { # per-test pass/fail set, timing removed
   go test -json -vet=off -count=1 -timeout 25m ./... 2>/dev/null | python3 -c '
 import sys, json
